@@ -42,6 +42,11 @@ RULE = ("cases = interception plans (0-8 entries per family built by truncating 
         "DIOCCHANGERULE buffers, `pfctl -s all` listing, anchor contents), then a second session whose ports are a "
         "decimal prefix of / equal to / unrelated to the first's is set up and only the anchors the main ruleset "
         "really calls are judged against its plan. Per plan every cell of the address x port arrangement is decided by the oracle. "
+        "Verbosity is a dimension of every case (direct, via firewall.main, via the client, stale-session, "
+        "pf-history, single odd calls): sshuttle.helpers.verbose is set to a level from the rotation "
+        "[0,0,3,0,2,0,3,1] indexed by a per-run case counter shifted by the seed (not drawn from the PRNG, so the "
+        "plans are the same at every level), stderr/stdout are captured around every call into the real code, "
+        "the level is stored in the replay and restored by --replay; the oracle is unchanged. "
         "A case is non-trivial when the plan has overlapping entries, a port range, an owner restriction or a name "
         "server; distinct = distinct (method, canonical plan)")
 MANIFEST = dict(
@@ -207,17 +212,62 @@ class _FakePopen(object):
         return 0
 
 
+# Verbosity is a dimension of every case: the level each case runs at comes from this rotation, indexed by a
+# per-run case counter and shifted by the check's seed (over seeds 0..7 every directed case runs at every
+# level).  It is NOT drawn from ctx.rng, so the generated plans are the same at every level.  The oracle is
+# unchanged: what the rules do to a packet must not depend on how much sshuttle logs.
+VERBOSITY_ROTATION = [0, 0, 3, 0, 2, 0, 3, 1]
+_CUR = {'level': 0}
+
+
+def begin_case(ctx):
+    """Choose the verbosity for the next case and make it the level of every call into the real code."""
+    n = ctx.__dict__.get('_c03_case_counter', 0)
+    ctx.__dict__['_c03_case_counter'] = n + 1
+    lvl = VERBOSITY_ROTATION[(n + ctx.seed) % len(VERBOSITY_ROTATION)]
+    _CUR['level'] = lvl
+    ctx.hist('verbosity:%d' % lvl)
+    if not ctx.__dict__.get('_c03_wrapped'):
+        ctx.__dict__['_c03_wrapped'] = True
+        orig = ctx.violation
+
+        def violation(key, case=None, *a, **kw):
+            if isinstance(case, dict) and 'verbosity' not in case:
+                case = dict(case, verbosity=_CUR['level'])     # stored in the replay, restored by --replay
+            return orig(key, case, *a, **kw)
+        ctx.violation = violation
+    return lvl
+
+
+class _RealCodeIO(object):
+    """Around every call into the real code: sshuttle.helpers.verbose = the case's level, sys.stderr and
+    sys.stdout captured; everything restored afterwards."""
+
+    def __enter__(self):
+        import sshuttle.helpers as helpers
+        self.helpers = helpers
+        self.saved = (helpers.verbose, helpers.logprefix, sys.stderr, sys.stdout)
+        helpers.verbose = _CUR['level']
+        sys.stderr = io.StringIO()
+        sys.stdout = io.StringIO()
+        return self
+
+    def __exit__(self, *exc):
+        self.helpers.verbose, self.helpers.logprefix, sys.stderr, sys.stdout = self.saved
+        return False
+
+
 def _at_os_boundary(method, body, kernel=None, pfstate=None):
     """Run body(method_object, rec) with subprocess.call/check_output/Popen (and, for pf, the ioctl and
     pf_get_dev) replaced by recorders; everything is restored afterwards.  Returns body's value.
     With `kernel` (a KernelState) the iptables/ip6tables/nft commands act on that state: their exit status
     and the `-nL` listing come from it instead of "always succeeds / nothing exists"."""
     import subprocess
-    import sshuttle.helpers as helpers
     from sshuttle.methods import get_method
-    helpers.verbose = 0
     rec = []
-    old = (subprocess.call, subprocess.check_output, subprocess.Popen, sys.stderr, helpers.logprefix)
+    old = (subprocess.call, subprocess.check_output, subprocess.Popen)
+    io_guard = _RealCodeIO().__enter__()
+
     def _call(argv, **kw):
         rec.append(('call', list(argv), None))
         return kernel.apply([str(a) for a in argv]) if kernel is not None else 0
@@ -228,7 +278,6 @@ def _at_os_boundary(method, body, kernel=None, pfstate=None):
     subprocess.call = _call
     subprocess.check_output = _query
     subprocess.Popen = lambda argv, **kw: _FakePopen(rec, argv, pfstate, **kw)
-    sys.stderr = io.StringIO()
     pfmod = None
     pf_saved = None
     try:
@@ -247,7 +296,8 @@ def _at_os_boundary(method, body, kernel=None, pfstate=None):
             m = get_method(method)
         return body(m, rec)
     finally:
-        subprocess.call, subprocess.check_output, subprocess.Popen, sys.stderr, helpers.logprefix = old
+        subprocess.call, subprocess.check_output, subprocess.Popen = old
+        io_guard.__exit__(None, None, None)
         if pf_saved:
             pfmod.pf, pfmod.ioctl, pfmod.pf_get_dev = pf_saved[:3]
             pfmod._pf_context.clear()
@@ -379,13 +429,11 @@ def client_dialogue(method, plan):
     real start()) writes to the firewall helper for this plan."""
     import subprocess
     import sshuttle.client as client
-    import sshuttle.helpers as helpers
-    helpers.verbose = 0
     mname = 'pf' if method.startswith('pf-') else 'tproxy' if method.startswith('tproxy') else method
     procs = []
-    old = (subprocess.Popen, sys.stderr)
+    old = (subprocess.Popen,)
+    io_guard = _RealCodeIO().__enter__()
     subprocess.Popen = lambda argv, **kw: (procs.append(_ClientHelperProc(argv, **kw)), procs[-1])[1]
-    sys.stderr = io.StringIO()
     fwc = None
     try:
         fwc = client.FirewallClient(mname, False)
@@ -396,7 +444,8 @@ def client_dialogue(method, plan):
         fwc.start()
         return procs[-1].received()
     finally:
-        subprocess.Popen, sys.stderr = old
+        subprocess.Popen, = old
+        io_guard.__exit__(None, None, None)
         for pr in procs:
             pr.close()
         try:
@@ -1172,6 +1221,7 @@ def evaluate_pf_history(method, first, plan, k):
 
 def pf_history_case(ctx, method, first, plan, budget):
     """The second session's rules must take effect whatever anchor calls earlier sessions left behind."""
+    begin_case(ctx)
     rng = ctx.rng
     ctx.hist('pf-history:' + method)
     kind, val = run_pf_history(method, first, plan)
@@ -1290,6 +1340,7 @@ def second_plan(rng, method, first):
 def stale_session_case(ctx, method, first, plan, budget):
     """Session 1 (`first`) is set up and killed; session 2 (`plan`) is set up on what it left.  The rule state
     must implement `plan`."""
+    begin_case(ctx)
     rng = ctx.rng
     ctx.hist('stale-session:' + method)
     kind, val = run_sessions(method, [first, plan])
@@ -1601,6 +1652,7 @@ def _classify(method, plan, k, got, want):
 
 
 def run_plan(ctx, method, plan, log, budget, lean_cells, via='direct'):
+    begin_case(ctx)
     rng = ctx.rng
     tag = 'via-helper:' + method if via == 'helper' else 'via-client:' + method if via == 'client' else method
     kind, val, per_call = real_plan_cmds(method, plan, via)
@@ -1696,6 +1748,7 @@ def gen_and_run(ctx):
     # 1. single calls outside main's envelope (exceptions, filters)
     lg = Case()
     for m, c in odd_calls(rng):
+        begin_case(ctx)
         lg.ins.append(setup_line(m, c))
         lg.outs.append(canon(run_real_setup(m if m != 'tproxy' else 'tproxy', c)))
         ctx.count()
@@ -1743,7 +1796,7 @@ def gen_and_run(ctx):
                 ctx.hist('client-owner:user=%s,group=%s' % (plan.user, plan.group))
             ctx.mark(canon_plan(method, plan) + ('client',), True)
             if i == 1 and method == 'nat':
-                ctx.sample(dict(method=method, path='FirewallClient -> firewall.main',
+                ctx.sample(dict(method=method, path='FirewallClient -> firewall.main', verbosity=_CUR['level'],
                                 client_dialogue=client_dialogue(method, plan).decode('ascii'),
                                 real_code_output=lg.outs[:1]))
     # 2c. a session set up on top of what a killed session left (same ports, no tear-down in between)
@@ -1893,6 +1946,7 @@ def search(ctx):
 
 def replay(ctx, rep):
     case = rep['case']
+    _CUR['level'] = int(case.get('verbosity', 0) or 0)
     method = case['method']
     via = case.get('via', 'direct')
     plan = Plan.from_json(case['plan'])
